@@ -19,7 +19,15 @@ func init() {
 // Letters are 1 px wide; {Cn} control codes are n px wide; é is a 1 px letter.
 func fmtWord(i, w int, variant int) string {
 	letter := string(rune('a' + i%20))
-	switch variant % 4 {
+	switch variant % 5 {
+	case 4:
+		// a closing brace that closes nothing is an ordinary 1 px character
+		if w >= 2 {
+			if i%2 == 0 {
+				return strings.Repeat(letter, w-1) + "}"
+			}
+			return "}" + strings.Repeat(letter, w-1)
+		}
 	case 1:
 		if w >= 2 {
 			return fmt.Sprintf("{C%d}", w-1) + letter // a control code glued to a letter
@@ -37,7 +45,7 @@ func fmtWord(i, w int, variant int) string {
 var fmtCodes = map[int]string{4: `\n`, 5: `\l`, 6: `\p`, 7: `\N`}
 
 func fmtFont(sp int) parser.Fonts {
-	w := map[string]int{" ": sp, "é": 1, "{C1}": 1, "{C2}": 2, "{C S}": 2, "default": 1}
+	w := map[string]int{" ": sp, "é": 1, "}": 1, "{C1}": 1, "{C2}": 2, "{C S}": 2, "default": 1}
 	for ch := 'a'; ch <= 'z'; ch++ {
 		w[string(ch)] = 1
 	}
@@ -128,7 +136,9 @@ func splitFmtWords(seg string) []string {
 			depth++
 			cur += string(ch)
 		case ch == '}':
-			depth--
+			if depth > 0 {
+				depth--
+			}
 			cur += string(ch)
 		case ch == ' ' && depth == 0:
 			out = append(out, cur)
